@@ -485,8 +485,8 @@ Proof.
 Qed.
 
 (* ---------- the hex-mantissa form ---------- *)
-Lemma float_lit_hex neg rest :
-  float_lit ((if neg then [c_minus] else []) ++ [c_0; c_x; c_dot] ++ rest) =
+Lemma float_lit_hex (neg : bool) (rest : str) :
+  float_lit ((if neg then [c_minus] else @nil N) ++ c_0 :: c_x :: c_dot :: rest) =
   match split_byte c_p rest with
   | Some (hs, es) =>
       let '(eneg, ds) := strip_sign es in
@@ -571,7 +571,7 @@ Proof.
   destruct (print_pos_spec 16 PP ltac:(lia)) as [h [Eh Dh]]. rewrite Eh in P. cbn [bind] in P.
   destruct (print_Z_shape ex) as [x [Ex Hx]]. rewrite Ex in P. cbn [bind] in P.
   injection P as <-.
-  pose proof (digits_hexchar _ _ _ ltac:(lia) Dh) as Fh.
+  pose proof (digits_hexchar 16 _ _ ltac:(lia) Dh) as Fh.
   pose proof (dec_shape_chars _ _ Hx) as Fx.
   assert (PL : Forall plainchar ((if neg then [c_minus] else []) ++
                  [c_0; c_x; c_dot] ++ h ++ c_p :: (if 0 <=? ex then [c_plus] else []) ++ x)).
@@ -608,3 +608,164 @@ Proof.
   destruct ((- maxExp <? ex) && (ex <? maxExp) && (-10000000 <=? e - k) && (e - k <=? 10000000)); [|reflexivity].
   destruct (0 <=? e); reflexivity.
 Qed.
+
+(* ---------- exact denotation and the round trip ---------- *)
+Inductive dval :=
+| DNil | DUnknown | DBool (b : bool) | DInt (z : Z)
+| DFloat (q : Z * positive) | DComplex (re im : Z * positive) | DString (s : str).
+
+Definition vden (v : value) : dval :=
+  match v with
+  | VNil => DNil | VUnknown => DUnknown | VBool b => DBool b | VInt z => DInt z
+  | VFloat f => DFloat (fden f) | VComplex re im => DComplex (fden re) (fden im) | VString s => DString s
+  end.
+
+(* "exactly the same value": equal denotations (for every kind but Float/Complex this is syntactic equality) *)
+Definition same_value (a b : value) : Prop := vden a = vden b.
+Definition wf (k : kind) (v : value) : Prop := wfb k v = true.
+
+Definition nocolon (c : N) : Prop := c <> c_colon.
+
+Lemma comp_limit_pos : 0 < comp_limit.
+Proof.
+  unfold comp_limit. assert (2 ^ 3582 < 2 ^ 4095) by (apply Z.pow_lt_mono_r; lia). lia.
+Qed.
+
+(* result of unmarshalFloat on the text of a well-formed Float representation *)
+Definition float_result (f : fval) : fval :=
+  match f with
+  | FRat _ _ => f
+  | FBig neg m e => big_result neg m e
+  | FBig0 => FRat 0 1
+  end.
+
+Lemma float_result_den f : fden (float_result f) = fden f.
+Proof. destruct f; [reflexivity|apply big_result_den|reflexivity]. Qed.
+
+Lemma wf_rat n d : wf_fval (FRat n d) = true ->
+  Z.gcd n (Z.pos d) = 1 /\ Z.abs n < comp_limit /\ Z.pos d < comp_limit.
+Proof.
+  cbn [wf_fval]. intros W. apply andb_true_iff in W. destruct W as [W W3].
+  apply andb_true_iff in W. destruct W as [W1 W2].
+  apply Z.eqb_eq in W1. unfold small_comp in *. apply Z.ltb_lt in W2, W3. simpl Z.abs in W3. auto.
+Qed.
+
+Lemma unmarshal_fval f : wf_fval f = true ->
+  exists s, print_fval f = Some s /\ unmarshal_float s = QVal (float_result f) /\ Forall nocolon s.
+Proof.
+  intros W. destruct f as [n d|neg m e|].
+  - destruct (wf_rat _ _ W) as [G [Hn Hd]].
+    assert (exists s, print_rat n d = Some s) as [s Es].
+    { unfold print_rat. destruct (print_Z_shape n) as [a [Ea _]].
+      destruct (print_pos_spec 10 d ltac:(lia)) as [b [Eb _]].
+      destruct d; rewrite Ea; cbn [bind]; try rewrite Eb; cbn [bind]; eauto. }
+    exists s. split; [exact Es|].
+    destruct (unmarshal_float_rat n d s Es G Hn Hd) as [U F]. split; [exact U|].
+    eapply Forall_impl; [|exact F]. intros c [->|[->|Hc]]; unfold nocolon, c_colon, c_slash, c_minus, decchar in *; lia.
+  - assert (exists s, print_big neg m e = Some s) as [s Es].
+    { unfold print_big.
+      destruct (print_pos_spec 16 (Z.to_pos (Z.pos m * 2 ^ hex_shift m)) ltac:(lia)) as [h [Eh _]].
+      destruct (print_Z_shape (e + Z.pos (Pos.size m))) as [x [Ex _]].
+      rewrite Eh, Ex. cbn [bind]. eauto. }
+    exists s. split; [exact Es|].
+    destruct (unmarshal_float_big neg m e s Es W) as [U F]. split; [exact U|].
+    eapply Forall_impl; [|exact F]. intros c [H _]. exact H.
+  - exists [c_0]. split; [reflexivity|]. split; [reflexivity|].
+    constructor; [unfold nocolon, c_0, c_colon; lia|constructor].
+Qed.
+
+Lemma nocolon_notin s : Forall nocolon s -> ~ In c_colon s.
+Proof. intros F Hin. rewrite Forall_forall in F. apply (F _ Hin). reflexivity. Qed.
+
+(* all kinds except Complex *)
+Lemma roundtrip k v : k <> KComplex -> wf k v ->
+  exists s v', marshal k v = Some s /\ unmarshal s = UOk k v' /\ same_value v v'.
+Proof.
+  intros NC W. unfold wf in W.
+  destruct k; try congruence; destruct v; cbn [wfb] in W; try discriminate W.
+  - exists p_nil, VNil. repeat split; reflexivity.
+  - exists (p_bool ++ c_colon :: (if b then p_true else p_false)), (VBool b).
+    split; [reflexivity|]. split; [destruct b; reflexivity|reflexivity].
+  - destruct (print_Z_shape z) as [s [Es Hs]]. exists (p_int ++ c_colon :: s), (VInt z).
+    split; [cbn [marshal]; rewrite Es; reflexivity|]. split; [|reflexivity].
+    change (unmarshal (p_int ++ c_colon :: s)) with (of_i KInt (int_lit s)).
+    rewrite (int_lit_print _ _ Hs). reflexivity.
+  - destruct (print_Z_shape z) as [s [Es Hs]]. exists (p_rune ++ c_colon :: s), (VInt z).
+    split; [cbn [marshal]; rewrite Es; reflexivity|]. split; [|reflexivity].
+    change (unmarshal (p_rune ++ c_colon :: s)) with (of_i KRune (int_lit s)).
+    rewrite (int_lit_print _ _ Hs). reflexivity.
+  - destruct (unmarshal_fval f W) as [s [Es [U _]]].
+    exists (p_float ++ c_colon :: s), (VFloat (float_result f)).
+    split; [cbn [marshal]; rewrite Es; reflexivity|]. split.
+    + change (unmarshal (p_float ++ c_colon :: s)) with (of_q KFloat (unmarshal_float s)).
+      rewrite U. reflexivity.
+    + unfold same_value. cbn [vden]. rewrite float_result_den. reflexivity.
+  - exists (p_string ++ c_colon :: s), (VString s). repeat split; reflexivity.
+Qed.
+
+(* Complex: every well-formed pair except a floatVal part whose exponent lies in go/constant's "small" window
+   (Unmarshal turns that part into a fraction and then adds int64Val(0) through makeRat, which may round it back to a
+   floatVal: value preserved on the real code and in the correspondence run, not proved here) *)
+Definition cpart_ok (f : fval) : bool :=
+  match f with FBig _ m e => negb (big_small m e) | _ => true end.
+
+Lemma fadd0_result f : wf_fval f = true -> cpart_ok f = true -> fadd0 (float_result f) = QVal (float_result f).
+Proof.
+  intros W C. destruct f as [n d|neg m e|]; cbn [float_result].
+  - destruct (wf_rat _ _ W) as [G [Hn Hd]]. cbn [fadd0]. apply make_rat_id; assumption.
+  - cbn [cpart_ok] in C. unfold big_result. destruct (big_small m e); [discriminate|reflexivity].
+  - cbn [fadd0]. apply make_rat_id; [reflexivity| |]; pose proof comp_limit_pos; simpl; lia.
+Qed.
+
+Lemma roundtrip_complex re im : wf KComplex (VComplex re im) -> cpart_ok re = true -> cpart_ok im = true ->
+  exists s v', marshal KComplex (VComplex re im) = Some s /\ unmarshal s = UOk KComplex v'
+    /\ same_value (VComplex re im) v'.
+Proof.
+  unfold wf. cbn [wfb]. intros W C1 C2. apply andb_true_iff in W. destruct W as [W1 W2].
+  destruct (unmarshal_fval re W1) as [a [Ea [Ua Fa]]].
+  destruct (unmarshal_fval im W2) as [b [Eb [Ub Fb]]].
+  exists (p_complex ++ c_colon :: a ++ c_colon :: b), (VComplex (float_result re) (float_result im)).
+  split; [cbn [marshal]; rewrite Ea, Eb; reflexivity|]. split.
+  - change (unmarshal (p_complex ++ c_colon :: a ++ c_colon :: b)) with (unmarshal_complex (a ++ c_colon :: b)).
+    unfold unmarshal_complex. rewrite (split_byte_first _ _ _ (nocolon_notin _ Fa)).
+    rewrite Ua, Ub, (fadd0_result re W1 C1), (fadd0_result im W2 C2). reflexivity.
+  - unfold same_value. cbn [vden]. rewrite !float_result_den. reflexivity.
+Qed.
+
+(* for the kinds without alternative representations the value comes back syntactically equal *)
+Lemma roundtrip_exact k v : k <> KComplex -> k <> KFloat -> wf k v ->
+  exists s, marshal k v = Some s /\ unmarshal s = UOk k v.
+Proof.
+  intros NC NF W. destruct (roundtrip k v NC W) as [s [v' [M [U S]]]]. exists s. split; [exact M|].
+  rewrite U. f_equal. unfold same_value in S. unfold wf in W.
+  destruct k; try congruence; destruct v; cbn [wfb] in W; try discriminate W;
+    destruct v'; cbn [vden] in S; try discriminate S; congruence.
+Qed.
+
+Definition covered (k : kind) (v : value) : Prop :=
+  wf k v /\ match v with VComplex re im => cpart_ok re = true /\ cpart_ok im = true | _ => True end.
+
+Lemma roundtrip_all k v : covered k v ->
+  exists s v', marshal k v = Some s /\ unmarshal s = UOk k v' /\ same_value v v'.
+Proof.
+  intros [W C]. destruct (kind_eqb k KComplex) eqn:E.
+  - destruct k; try discriminate E. unfold wf in W. destruct v; cbn [wfb] in W; try discriminate W.
+    destruct C. apply roundtrip_complex; assumption.
+  - apply roundtrip; [|exact W]. intros ->. discriminate E.
+Qed.
+
+Lemma marshal_injective k1 v1 k2 v2 s : covered k1 v1 -> covered k2 v2 ->
+  marshal k1 v1 = Some s -> marshal k2 v2 = Some s -> k1 = k2 /\ same_value v1 v2.
+Proof.
+  intros C1 C2 M1 M2.
+  destruct (roundtrip_all _ _ C1) as [s1 [w1 [E1 [U1 S1]]]].
+  destruct (roundtrip_all _ _ C2) as [s2 [w2 [E2 [U2 S2]]]].
+  rewrite M1 in E1. rewrite M2 in E2. injection E1 as <-. injection E2 as <-.
+  rewrite U1 in U2. injection U2 as -> ->. split; [reflexivity|].
+  unfold same_value in *. congruence.
+Qed.
+
+(* strings: any bytes, only the first ':' separates *)
+Lemma string_with_colons s : unmarshal (p_string ++ c_colon :: s) = UOk KString (VString s)
+  /\ marshal KString (VString s) = Some (p_string ++ c_colon :: s).
+Proof. split; reflexivity. Qed.
